@@ -16,6 +16,7 @@ import (
 
 	"github.com/taskctl/taskctl/pkg/scheduler"
 	"github.com/taskctl/taskctl/pkg/task"
+	"github.com/taskctl/taskctl/pkg/variables"
 )
 
 // ---------- configuration of one scheduler case ----------
@@ -29,6 +30,8 @@ type schedCfg struct {
 	order []int  // declaration order (AddStage order)
 	// nested[i] != nil: stage i runs an included pipeline instead of a task
 	nested []*schedCfg
+	// shared: all task stages of this graph use ONE *task.Task and are told apart by a stage-level env var
+	shared bool
 }
 
 const (
@@ -59,6 +62,9 @@ func (c *schedCfg) line(rel [][]int) string {
 
 func (c *schedCfg) describe() string {
 	s := c.line(nil) + " order=" + joinInts(c.order, ",")
+	if c.shared {
+		s += " shared-task"
+	}
 	for i, nc := range c.nested {
 		if nc != nil {
 			s += fmt.Sprintf(" nested[%d]={%s}", i, nc.describe())
@@ -236,23 +242,27 @@ var errTaskFailed = errors.New("task failed")
 var errCancelled = errors.New("context canceled")
 
 func (r *ctlRunner) Run(t *task.Task) error {
+	name := t.Name
+	if t.Env != nil && t.Env.Has("VERIF_STAGE") {
+		name = t.Env.Get("VERIF_STAGE").(string)
+	}
 	r.mu.Lock()
-	r.entered[t.Name]++
-	r.entries = append(r.entries, t.Name)
+	r.entered[name]++
+	r.entries = append(r.entries, name)
 	if r.cancelled {
 		r.mu.Unlock()
 		return errCancelled
 	}
 	ch := make(chan bool, 1)
-	r.gates[t.Name] = ch
+	r.gates[name] = ch
 	cb := r.onEnter
 	r.mu.Unlock()
 	if cb != nil {
-		cb(t.Name)
+		cb(name)
 	}
 	ok := <-ch
 	r.mu.Lock()
-	delete(r.gates, t.Name)
+	delete(r.gates, name)
 	r.mu.Unlock()
 	if !ok {
 		return errTaskFailed
@@ -387,6 +397,7 @@ func buildGraphTop(c *schedCfg, all *builtGraph) (*scheduler.ExecutionGraph, err
 }
 
 func buildGraphRec(c *schedCfg, prefix string, inherited []*scheduler.Stage, all *builtGraph) (*scheduler.ExecutionGraph, error) {
+	var sharedTask *task.Task
 	stages := make([]*scheduler.Stage, c.n)
 	for i := 0; i < c.n; i++ {
 		name := fmt.Sprintf("%s%d", prefix, i)
@@ -412,6 +423,14 @@ func buildGraphRec(c *schedCfg, prefix string, inherited []*scheduler.Stage, all
 				return nil, err
 			}
 			stages[i].Pipeline = sub
+		} else if c.shared {
+			if sharedTask == nil {
+				sharedTask = task.NewTask()
+				sharedTask.Name = prefix + "shared"
+			}
+			stages[i].Task = sharedTask
+			stages[i].Env = variables.FromMap(map[string]string{"VERIF_STAGE": name})
+			stages[i].Variables = variables.FromMap(map[string]string{"stage": name})
 		} else {
 			t := task.NewTask()
 			t.Name = name
